@@ -11,6 +11,7 @@ import (
 	"sort"
 	"strings"
 	"sync"
+	"syscall"
 	"time"
 )
 
@@ -364,6 +365,10 @@ func (c *Ctx) Script(dialect string) string {
 	defer c.mu.Unlock()
 	var b strings.Builder
 	for _, d := range c.decls {
+		if dialect == "cover" && strings.HasPrefix(d.Name, "axiom:") && strings.Contains(d.Text, "(forall ") {
+			// consistent background axioms are dropped from vacuity (cover) queries so that "sat" is decidable
+			continue
+		}
 		if dialect == "cover" && d.Alt != "" {
 			// definitions of fresh array constants are conservative: a cover query may drop them
 			b.WriteString(strings.SplitN(d.Alt, "\n", 2)[0])
@@ -402,6 +407,7 @@ type Result struct {
 	Output  string
 	Script  string
 	ModelKV map[string]string
+	Wall    float64
 }
 
 func (o *Obligation) script(dialect string, wantModel bool) string {
@@ -458,9 +464,21 @@ var solvers = []solverSpec{
 }
 
 func runSolver(sp solverSpec, script string, timeoutMs int, seed int) (status, out string, secs float64) {
-	ctx, cancel := context.WithTimeout(context.Background(), time.Duration(timeoutMs+2000)*time.Millisecond)
+	return runSolverCtx(context.Background(), sp, script, timeoutMs, seed)
+}
+
+func runSolverCtx(parent context.Context, sp solverSpec, script string, timeoutMs int, seed int) (status, out string, secs float64) {
+	ctx, cancel := context.WithTimeout(parent, time.Duration(timeoutMs+2000)*time.Millisecond)
 	defer cancel()
 	cmd := exec.CommandContext(ctx, sp.bin, sp.args(timeoutMs, seed)...)
+	cmd.SysProcAttr = &syscall.SysProcAttr{Setpgid: true}
+	cmd.Cancel = func() error {
+		if cmd.Process != nil {
+			return syscall.Kill(-cmd.Process.Pid, syscall.SIGKILL)
+		}
+		return nil
+	}
+	cmd.WaitDelay = 200 * time.Millisecond
 	cmd.Stdin = strings.NewReader(script)
 	var buf bytes.Buffer
 	cmd.Stdout = &buf
@@ -543,9 +561,11 @@ func Solve(o *Obligation) *Result {
 		st, out, name string
 		secs          float64
 	}
-	ch := make(chan r, 4)
+	ch := make(chan r, 8)
+	raceCtx, cancelRace := context.WithCancel(context.Background())
+	defer cancelRace()
 	run := func(sp solverSpec, script string) {
-		st, out, secs := runSolver(sp, script, optTimeoutMs, optSeed)
+		st, out, secs := runSolverCtx(raceCtx, sp, script, optTimeoutMs, optSeed)
 		ch <- r{st, out, sp.name, secs}
 	}
 	n := 0
@@ -556,6 +576,22 @@ func Solve(o *Obligation) *Result {
 	go run(solvers[1], qs)
 	go run(solvers[2], cs)
 	n += 2
+	if !o.Cover {
+		// exact (lambda) array definitions: only an "unsat" from this form is used here
+		ls := o.script("z3", true)
+		for _, base := range []solverSpec{solvers[1], solvers[0]} {
+			lam := base
+			lam.name += "(lambda form)"
+			go func() {
+				st, out, secs := runSolverCtx(raceCtx, lam, ls, optTimeoutMs, optSeed)
+				if st == "sat" {
+					st = "unknown"
+				}
+				ch <- r{st, out, lam.name, secs}
+			}()
+			n++
+		}
+	}
 	var agree []string
 	if st == want {
 		agree = append(agree, solvers[0].name)
@@ -676,7 +712,10 @@ func modelValue(s string) string {
 }
 
 // SolveAll runs obligations on a worker pool.
+var solveStart time.Time
+
 func SolveAll(obs []*Obligation, workers int) []*Result {
+	solveStart = time.Now()
 	out := make([]*Result, len(obs))
 	var wg sync.WaitGroup
 	sem := make(chan struct{}, workers)
@@ -686,7 +725,12 @@ func SolveAll(obs []*Obligation, workers int) []*Result {
 		go func(i int, o *Obligation) {
 			defer wg.Done()
 			defer func() { <-sem }()
+			t0 := time.Now()
 			out[i] = Solve(o)
+			out[i].Wall = time.Since(t0).Seconds()
+			if os.Getenv("GOVC_TRACE") != "" {
+				fmt.Fprintf(os.Stderr, "[solve] %d start+%.2f dur %.2f %s\n", i, t0.Sub(solveStart).Seconds(), out[i].Wall, o.Name)
+			}
 		}(i, o)
 	}
 	wg.Wait()
